@@ -401,7 +401,11 @@ Proof.
     destruct P as [h1 outs1]. cbn [fst] in HP. cbn [fst].
     assert (C1 : CI h1) by (eapply ci_same; eauto).
     assert (Hs1 : get_sess h1 n = Some s) by (rewrite (same_sc_get _ _ n HP); exact Hs).
-    eapply ci_same; [|apply (ci_put h1 n s (sess_pending (sess_conn s (Some c)) []) C1 Hs1); reflexivity]. ssc.
+    match goal with |- CI (fst (if _ then _ else (?hh, _))) => assert (C5 : CI hh) end.
+    { eapply ci_same; [|apply (ci_put h1 n s (sess_pending (sess_conn s (Some c)) []) C1 Hs1); reflexivity]. ssc. }
+    destruct (queue_closes s); [|exact C5].
+    match goal with |- context [close_conn ?hh c] => destruct (close_conn hh c) as [h6 o6] eqn:H6 end. cbn [fst].
+    rewrite (fst_eq _ _ _ H6). now apply ci_close_conn.
 Qed.
 
 (* ------------------------------------------------------------------ joining *)
